@@ -22,8 +22,8 @@ import (
 // ---------------------------------------------------------------------------
 
 const batchWatchdog = 300 * time.Second // generous (a batch needs < 2 s); converts to "inconclusive", never a verdict by itself
-const singleWatchdog = 60 * time.Second  // >= 10^5 x the cost of one case
-const maxDeaths = 3                      // after this many confirmed child deaths/hangs no further batches are started
+const singleWatchdog = 60 * time.Second // >= 10^5 x the cost of one case
+const maxDeaths = 3                     // after this many confirmed child deaths/hangs no further batches are started
 
 func verifRoot() string {
 	if r := os.Getenv("VERIF_ROOT"); r != "" {
